@@ -13,8 +13,9 @@
   horizontal slabs at every endpoint ordinate and every ordinate where two segments (both
   spanning it) cross, orders the segments spanning each slab by abscissa at the slab's middle, and
   evaluates Φ once per gap.  Where Φ fails it tries to certify that the whole gap trapezoid lies
-  within distance δ of a single outline edge (its four corners do; the δ-neighbourhood of a
-  segment is convex) — the tolerance band the properties allow.
+  within distance δ of the outline: its four corners are within δ of a single outline edge (the
+  δ-neighbourhood of a segment is convex), or, after bisecting the trapezoid along x a bounded
+  number of times, that holds for every piece — the tolerance band the properties allow.
 
   Written once over `[Scalar α]`: executed on exact rationals (`Model/RatScalar.lean`), reasoned
   about over ordered fields (`Props/Slab.lean`).
@@ -49,7 +50,7 @@ def Item.spans (it : Item α) (y0 y1 : α) : Bool := it.a.y ≤ y0 && y1 ≤ it.
 
 /-- ordinate where the supporting lines of two items cross, if they are not parallel and the
 ordinate lies in both items' closed y-ranges -/
-def crossY (i j : Item α) : Option α :=
+def crossYLines (i j : Item α) : Option α :=
   let si := (i.b.x - i.a.x) / (i.b.y - i.a.y)
   let sj := (j.b.x - j.a.x) / (j.b.y - j.a.y)
   if si == sj then none else
@@ -57,6 +58,11 @@ def crossY (i j : Item α) : Option α :=
     let cj := j.a.x - sj * j.a.y
     let y := (cj - ci) / (si - sj)
     if i.a.y ≤ y && y ≤ i.b.y && j.a.y ≤ y && y ≤ j.b.y then some y else none
+
+/-- `crossYLines`, skipping the arithmetic for pairs whose closed y-ranges are disjoint (the
+range test would reject the ordinate anyway) -/
+def crossY (i j : Item α) : Option α :=
+  if i.b.y < j.a.y || j.b.y < i.a.y then none else crossYLines i j
 
 def allCrossings : List (Item α) → List α
   | [] => []
@@ -112,9 +118,26 @@ def sqDistSeg (p a b : P α) : α :=
     else if one ≤ t then (p - b).sqLen
     else (p - (a + v.smul t)).sqLen
 
-/-- all four corners of the gap trapezoid within `δ` of one outline edge -/
+/-- all the given points within `δ` of one outline edge -/
 def bandCovers (edges : List (P α × P α)) (d2 : α) (corners : List (P α)) : Bool :=
   edges.any (fun e => corners.all (fun c => sqDistSeg c e.1 e.2 ≤ d2))
+
+/-- corners of the trapezoid between the lines `(l0,y0)–(l1,y1)` and `(r0,y0)–(r1,y1)` -/
+def quadCorners (y0 y1 l0 l1 r0 r1 : α) : List (P α) := [⟨l0, y0⟩, ⟨r0, y0⟩, ⟨l1, y1⟩, ⟨r1, y1⟩]
+
+/-- the trapezoid lies in the tolerance band: its four corners are within `δ` of ONE outline edge
+(the `δ`-neighbourhood of a segment is convex), or — up to `depth` bisections along x — both halves
+do (a long thin trapezoid next to a finely flattened outline is near the outline everywhere
+without being near a single short edge) -/
+def bandRec (edges : List (P α × P α)) (d2 : α) (y0 y1 : α) : Nat → α → α → α → α → Bool
+  | 0, l0, l1, r0, r1 => bandCovers edges d2 (quadCorners y0 y1 l0 l1 r0 r1)
+  | d+1, l0, l1, r0, r1 =>
+    bandCovers edges d2 (quadCorners y0 y1 l0 l1 r0 r1) ||
+      (bandRec edges d2 y0 y1 d l0 l1 ((l0 + r0) / two) ((l1 + r1) / two) &&
+        bandRec edges d2 y0 y1 d ((l0 + r0) / two) ((l1 + r1) / two) r0 r1)
+
+/-- bisection depth of the band test -/
+def bandDepth : Nat := 6
 
 /-! ### one slab -/
 
@@ -124,14 +147,14 @@ structure Fail (α : Type) where
   w : Int
   f : Nat
 
-structure SweepState (α : Type) where
+/-- sweep counters after a prefix of the sorted items: winding number, per-triangle edge
+parities, number of odd parities (= coverage) -/
+structure Acc where
   w : Int
   par : Array Bool
   f : Nat
-  /-- last item passed (left boundary of the current gap) -/
-  left : Option (Item α)
-  fails : List (Fail α)
-  gaps : Nat
+
+def Acc.init (nTri : Nat) : Acc := ⟨0, Array.replicate nTri false, 0⟩
 
 def toggle (par : Array Bool) (f : Nat) (tri : Nat) : Array Bool × Nat :=
   if tri == 0 then (par, f) else
@@ -139,35 +162,49 @@ def toggle (par : Array Bool) (f : Nat) (tri : Nat) : Array Bool × Nat :=
     let b := par.getD i false
     (par.setIfInBounds i (!b), if b then f - 1 else f + 1)
 
-/-- evaluate the gap between `l` and `r` (both spanning the slab `(y0,y1)`, `x_l(ym) < x_r(ym)`) -/
-def evalGap (m : Mode) (rule : Rule) (edges : List (P α × P α)) (d2 : α) (y0 y1 ym : α)
-    (st : SweepState α) (l r : Item α) : SweepState α :=
-  if m.holds rule st.w st.f then { st with gaps := st.gaps + 1 } else
-    let corners : List (P α) := [⟨l.xAt y0, y0⟩, ⟨r.xAt y0, y0⟩, ⟨l.xAt y1, y1⟩, ⟨r.xAt y1, y1⟩]
-    if bandCovers edges d2 corners then { st with gaps := st.gaps + 1 } else
-      { st with gaps := st.gaps + 1,
-                fails := ⟨(l.xAt ym + r.xAt ym) / two, ym, st.w, st.f⟩ :: st.fails }
+/-- pass one item -/
+def Acc.step (st : Acc) (it : Item α) : Acc :=
+  let t := toggle st.par st.f it.tri
+  ⟨st.w + it.dir, t.1, t.2⟩
 
+/-- the gap between `l` and `r` (both spanning the slab `(y0,y1)`, `x_l(ym) < x_r(ym)`) is accepted:
+the mode's formula holds for the counters `w`, `f`, or the whole gap trapezoid is in the band -/
+def gapOk (m : Mode) (rule : Rule) (edges : List (P α × P α)) (d2 : α) (y0 y1 : α)
+    (w : Int) (f : Nat) (l r : Item α) : Bool :=
+  m.holds rule w f ||
+    bandRec edges d2 y0 y1 bandDepth (l.xAt y0) (l.xAt y1) (r.xAt y0) (r.xAt y1)
+
+/-- evaluate one gap: the failures to record and the number of gaps evaluated -/
+def gapAt (m : Mode) (rule : Rule) (edges : List (P α × P α)) (d2 : α) (y0 y1 ym : α)
+    (w : Int) (f : Nat) (l : Item α) (x : α) (r : Item α) : List (Fail α) × Nat :=
+  -- a gap is closed when the next item is strictly to the right of the last one passed
+  if l.xAt ym < x then
+    (if gapOk m rule edges d2 y0 y1 w f l r then [] else [⟨(l.xAt ym + r.xAt ym) / two, ym, w, f⟩], 1)
+  else ([], 0)
+
+/-- sweep the rest of the sorted items; `st` = counters after the items passed so far, `l` = last
+item passed (left boundary of the current gap).  Later failures come first. -/
+def sweepGo (m : Mode) (rule : Rule) (edges : List (P α × P α)) (d2 : α) (y0 y1 ym : α)
+    (st : Acc) (l : Item α) : List (α × Item α) → List (Fail α) × Nat
+  | [] =>
+    -- the unbounded gap on the right: W and F must be back to "outside"
+    (if m.holds rule st.w st.f then [] else [⟨l.xAt ym + one, ym, st.w, st.f⟩], 0)
+  | xi :: rest =>
+    let g := gapAt m rule edges d2 y0 y1 ym st.w st.f l xi.1 xi.2
+    let r := sweepGo m rule edges d2 y0 y1 ym (st.step xi.2) xi.2 rest
+    (r.1 ++ g.1, r.2 + g.2)
+
+/-- items spanning the slab, keyed and sorted by abscissa at the mid-ordinate -/
+def slabSorted (items : List (Item α)) (y0 y1 : α) : List (α × Item α) :=
+  ((items.filter (fun it => it.spans y0 y1)).map (fun it => (it.xAt ((y0 + y1) / two), it))).mergeSort
+    (fun a b => a.1 ≤ b.1)
+
+/-- failures and number of gaps of one slab -/
 def sweepSlab (m : Mode) (rule : Rule) (edges : List (P α × P α)) (d2 : α) (nTri : Nat)
-    (items : List (Item α)) (y0 y1 : α) : SweepState α :=
-  let ym := (y0 + y1) / two
-  let span := items.filter (fun it => it.spans y0 y1)
-  let keyed := span.map (fun it => (it.xAt ym, it))
-  let sorted := keyed.mergeSort (fun a b => a.1 ≤ b.1)
-  let init : SweepState α := ⟨0, Array.replicate nTri false, 0, none, [], 0⟩
-  let st := sorted.foldl (fun st (xi : α × Item α) =>
-      let (x, it) := xi
-      -- a gap is closed when the next item is strictly to the right of the last one passed
-      let st := match st.left with
-        | some l => if l.xAt ym < x then evalGap m rule edges d2 y0 y1 ym st l it else st
-        | none => st
-      let (par, f) := toggle st.par st.f it.tri
-      { st with w := st.w + it.dir, par := par, f := f, left := some it }) init
-  -- the unbounded gap on the right: W and F must be back to "outside"
-  if m.holds rule st.w st.f then st else
-    match st.left with
-    | some l => { st with fails := ⟨l.xAt ym + one, ym, st.w, st.f⟩ :: st.fails }
-    | none => st
+    (items : List (Item α)) (y0 y1 : α) : List (Fail α) × Nat :=
+  match slabSorted items y0 y1 with
+  | [] => ([], 0)
+  | xi :: rest => sweepGo m rule edges d2 y0 y1 ((y0 + y1) / two) ((Acc.init nTri).step xi.2) xi.2 rest
 
 /-! ### whole check -/
 
@@ -204,15 +241,20 @@ def slabPairs : List α → List (α × α)
   | [_] => []
   | x :: y :: r => (x, y) :: slabPairs (y :: r)
 
+/-- all non-horizontal segments: outline edges first, then triangle edges tagged with index+1 -/
+def checkItems (inp : Input α) : List (Item α) := edgeItems inp.edges ++ triItems inp.tris
+
+/-- ordinates of all vertices (also those of horizontal edges) -/
+def checkExtra (inp : Input α) : List α :=
+  inp.edges.flatMap (fun e => [e.1.y, e.2.y]) ++ inp.tris.flatMap (fun t => [t.1.y, t.2.1.y, t.2.2.y])
+
 def check (inp : Input α) : Result α :=
-  let items := edgeItems inp.edges ++ triItems inp.tris
-  let extra := inp.edges.flatMap (fun e => [e.1.y, e.2.y])
-    ++ inp.tris.flatMap (fun t => [t.1.y, t.2.1.y, t.2.2.y])
-  let ys := ordinates items extra
+  let items := checkItems inp
+  let ys := ordinates items (checkExtra inp)
   let nT := inp.tris.length
   let res := (slabPairs ys).foldl (fun (acc : Nat × Nat × List (Fail α)) (yy : α × α) =>
       let st := sweepSlab inp.mode inp.rule inp.edges inp.d2 nT items yy.1 yy.2
-      (acc.1 + 1, acc.2.1 + st.gaps, st.fails ++ acc.2.2)) (0, 0, [])
+      (acc.1 + 1, acc.2.1 + st.2, st.1 ++ acc.2.2)) (0, 0, [])
   let deg := (inp.tris.zipIdx).filterMap (fun (t, i) => if triArea2 t == zero then some i else none)
   ⟨res.1, res.2.1, res.2.2, deg⟩
 
